@@ -11,6 +11,8 @@ from . import common, tla
 def validate(run, module, cfg, items, sep=None, max_lines=20000, max_rejections=4):
     """items: [(trace_id, [event dicts])]. Returns {trace_id: (index_in_trace, event)} for rejected ones.
     Adds TLC state counts and the number of accepted traces to `run`."""
+    if os.environ.get("VERIF_FAILFAST"):
+        max_rejections = 1          # mutant sweeps: the first rejection decides
     rejected = {}
     pending = [it for it in items if it[1]]
     while pending:
